@@ -18,7 +18,7 @@ from concurrent.futures import ThreadPoolExecutor
 
 SRC = "/repo/src/gbigsmiles"
 CHECKS = {
-    "core.py": ["C03", "C08", "C16"],
+    "core.py": ["C03", "C02", "C12", "C08", "C16"],
     "bond.py": ["C03", "C02", "C01", "C15", "C08"],
     "atom.py": ["C02", "C15"],
     "token.py": ["C02", "C01", "C15", "C05", "C08"],
